@@ -349,6 +349,267 @@ theorem len_writeAll (bs : List Bool) : (BitWriter.empty.writeAll bs).len = bs.l
     | succ k ih => intro xs; simp [packN, ih]
   rw [this]; have := Nat.div_add_mod bs.length 64; omega
 
+/-! ### `write_zeros` -/
+
+theorem packWord_append_zeros (xs : List Bool) (n : Nat) :
+    packWord (xs ++ List.replicate n false) = packWord xs := by
+  apply BitVec.eq_of_getLsbD_eq
+  intro i hi
+  rw [getLsbD_packWord, getLsbD_packWord]
+  congr 1
+  simp only [List.getD_eq_getElem?_getD]
+  by_cases h : i < xs.length
+  · rw [List.getElem?_append_left h]
+  · rw [List.getElem?_append_right (by omega), List.getElem?_eq_none (by omega : xs.length ≤ i)]
+    simp only [List.getElem?_replicate]
+    split <;> rfl
+
+theorem packWord_zeros (n : Nat) : packWord (List.replicate n false) = 0#64 := by
+  have := packWord_append_zeros [] n
+  simpa [packWord, packBits] using this
+
+theorem packN_zeros (m n : Nat) : packN m (List.replicate n false) = List.replicate m 0#64 := by
+  induction m generalizing n with
+  | zero => rfl
+  | succ m ih =>
+    simp only [packN, List.take_replicate, List.drop_replicate, packWord_zeros, ih, List.replicate_succ]
+
+theorem packN_add (j m : Nat) (xs : List Bool) :
+    packN (j + m) xs = packN j xs ++ packN m (xs.drop (64 * j)) := by
+  induction j generalizing xs with
+  | zero => simp [packN]
+  | succ j ih =>
+    have : j + 1 + m = (j + m) + 1 := by omega
+    rw [this, packN, packN, ih, List.drop_drop]
+    have : 64 + 64 * j = 64 * (j + 1) := by omega
+    rw [this]; rfl
+
+theorem drop_append_zeros (bs : List Bool) (n j r : Nat) (h : n - j = r) :
+    (bs ++ List.replicate n false).drop (bs.length + j) = List.replicate r false := by
+  rw [List.drop_append, List.drop_eq_nil_of_le (by omega), List.drop_replicate, List.nil_append]
+  congr 1; omega
+
+theorem writeZeros_canon (bs : List Bool) (n : Nat) :
+    (canonWriter bs).writeZeros n = canonWriter (bs ++ List.replicate n false) := by
+  by_cases hn : n = 0
+  · subst hn; simp [BitWriter.writeZeros]
+  have hk : 64 * (bs.length / 64) ≤ bs.length := Nat.mul_div_le _ _
+  have hmod := Nat.div_add_mod bs.length 64
+  have hdl : (bs.drop (64 * (bs.length / 64))).length = bs.length % 64 := by
+    rw [List.length_drop]; omega
+  simp only [BitWriter.writeZeros, hn, if_false]
+  by_cases hp : bs.length % 64 > 0
+  · have hpc : (canonWriter bs).pos > 0 := hp
+    simp only [hpc, if_true]
+    by_cases hfit : n < 64 - (canonWriter bs).pos
+    · simp only [hfit, if_true]
+      have hfit' : n < 64 - bs.length % 64 := hfit
+      have hq : (bs.length + n) / 64 = bs.length / 64 := by omega
+      have hr : (bs.length + n) % 64 = bs.length % 64 + n := by omega
+      simp only [canonWriter, List.length_append, List.length_replicate, hq, hr]
+      rw [packN_append _ _ _ hk, List.drop_append_of_le_length hk, packWord_append_zeros]
+    · simp only [hfit, if_false]
+      have hfit' : ¬ (n < 64 - bs.length % 64) := hfit
+      have hq : (bs.length + n) / 64 = (bs.length / 64 + 1) + (n - (64 - bs.length % 64)) / 64 := by omega
+      have hr : (bs.length + n) % 64 = (n - (64 - bs.length % 64)) % 64 := by omega
+      simp only [canonWriter, List.length_append, List.length_replicate, hq, hr]
+      have hdropall : (bs ++ List.replicate n false).drop (64 * (bs.length / 64 + 1)) =
+          List.replicate (n - (64 - bs.length % 64)) false := by
+        have : 64 * (bs.length / 64 + 1) = bs.length + (64 - bs.length % 64) := by omega
+        rw [this]; exact drop_append_zeros _ _ _ _ rfl
+      have htake : ((bs ++ List.replicate n false).drop (64 * (bs.length / 64))).take 64 =
+          bs.drop (64 * (bs.length / 64)) ++ List.replicate (64 - bs.length % 64) false := by
+        rw [List.drop_append_of_le_length hk, List.take_append, hdl, List.take_of_length_le (by omega),
+          List.take_replicate]
+        congr 2; omega
+      rw [packN_add, packN_succ, packN_append _ _ _ hk, htake, packWord_append_zeros, hdropall, packN_zeros]
+      have hd2 : (bs ++ List.replicate n false).drop
+          (64 * (bs.length / 64 + 1 + (n - (64 - bs.length % 64)) / 64)) =
+          List.replicate ((n - (64 - bs.length % 64)) % 64) false := by
+        have : 64 * (bs.length / 64 + 1 + (n - (64 - bs.length % 64)) / 64) =
+            bs.length + ((64 - bs.length % 64) + 64 * ((n - (64 - bs.length % 64)) / 64)) := by omega
+        rw [this]
+        exact drop_append_zeros _ _ _ _ (by have := Nat.div_add_mod (n - (64 - bs.length % 64)) 64; omega)
+      rw [hd2, packWord_zeros]
+  · have hp0 : bs.length % 64 = 0 := by omega
+    have hpc : ¬ ((canonWriter bs).pos > 0) := by show ¬ (bs.length % 64 > 0); omega
+    simp only [hpc, if_false]
+    have hq : (bs.length + n) / 64 = bs.length / 64 + n / 64 := by omega
+    have hr : (bs.length + n) % 64 = n % 64 := by omega
+    simp only [canonWriter, List.length_append, List.length_replicate, hq, hr]
+    have hL : 64 * (bs.length / 64) = bs.length := by omega
+    have hcur : packWord (bs.drop (64 * (bs.length / 64))) = 0#64 := by
+      rw [hL, List.drop_length]; rfl
+    have hd1 : (bs ++ List.replicate n false).drop (64 * (bs.length / 64)) = List.replicate n false := by
+      rw [hL, List.drop_left']; rfl
+    have hd2 : (bs ++ List.replicate n false).drop (64 * (bs.length / 64 + n / 64)) =
+        List.replicate (n % 64) false := by
+      have : 64 * (bs.length / 64 + n / 64) = bs.length + 64 * (n / 64) := by omega
+      rw [this]
+      exact drop_append_zeros _ _ _ _ (by have := Nat.div_add_mod n 64; omega)
+    rw [packN_add, packN_append _ _ _ hk, hd1, packN_zeros, hd2, packWord_zeros, hcur]
+
+/-! ### `write_bits` -/
+
+/-- The lowest `c` bits of a word, LSB first. -/
+def lowBits (v : BitVec 64) (c : Nat) : List Bool := (List.range c).map v.getLsbD
+
+theorem mask_bits64 : ∀ c : Fin 64, ∀ i : Fin 64,
+    ((1#64 <<< c.val) - 1#64).getLsbD i.val = decide (i.val < c.val) := by decide +kernel
+
+/-- `bits & mask` keeps exactly the lowest `count` bits. -/
+theorem getLsbD_masked (v : BitVec 64) (c : Nat) (hc : c ≤ 64) (i : Nat) (hi : i < 64) :
+    (v &&& (if c = 64 then BitVec.allOnes 64 else (1#64 <<< c) - 1#64)).getLsbD i =
+      (v.getLsbD i && decide (i < c)) := by
+  by_cases h64 : c = 64
+  · subst h64; rw [if_pos rfl, BitVec.and_allOnes]; simp [hi]
+  · have := mask_bits64 ⟨c, by omega⟩ ⟨i, hi⟩
+    simp only at this
+    simp [h64, BitVec.getLsbD_and, this]
+
+theorem getD_lowBits (v : BitVec 64) (c i : Nat) : (lowBits v c).getD i false = (v.getLsbD i && decide (i < c)) := by
+  simp only [lowBits, List.getD_eq_getElem?_getD, List.getElem?_map]
+  by_cases h : i < c <;> simp [h]
+
+theorem lowBits_length (v : BitVec 64) (c : Nat) : (lowBits v c).length = c := by simp [lowBits]
+
+/-- `cur | (masked << pos)` appends the new bits after the `pos` bits already in the word. -/
+theorem packWord_append_low (tail : List Bool) (v : BitVec 64) (c : Nat) (hc : c ≤ 64) :
+    packWord tail ||| ((v &&& (if c = 64 then BitVec.allOnes 64 else (1#64 <<< c) - 1#64)) <<< tail.length) =
+      packWord (tail ++ lowBits v c) := by
+  apply BitVec.eq_of_getLsbD_eq
+  intro i hi
+  rw [BitVec.getLsbD_or, getLsbD_packWord, getLsbD_packWord, BitVec.getLsbD_shiftLeft]
+  simp only [hi, decide_true, Bool.true_and, List.getD_eq_getElem?_getD]
+  by_cases h : i < tail.length
+  · rw [List.getElem?_append_left h]; simp [h]
+  · rw [List.getElem?_append_right (by omega), List.getElem?_eq_none (by omega : tail.length ≤ i)]
+    have hm := getLsbD_masked v c hc (i - tail.length) (by omega)
+    have hl := getD_lowBits v c (i - tail.length)
+    simp only [List.getD_eq_getElem?_getD] at hl
+    rw [hm, hl]; simp [h]
+
+/-- `masked >> space` holds the new bits that did not fit. -/
+theorem packWord_drop_low (v : BitVec 64) (c s : Nat) (hc : c ≤ 64) :
+    (v &&& (if c = 64 then BitVec.allOnes 64 else (1#64 <<< c) - 1#64)) >>> s = packWord ((lowBits v c).drop s) := by
+  apply BitVec.eq_of_getLsbD_eq
+  intro i hi
+  rw [BitVec.getLsbD_ushiftRight, getLsbD_packWord]
+  simp only [hi, decide_true, Bool.true_and, List.getD_eq_getElem?_getD, List.getElem?_drop]
+  have hl := getD_lowBits v c (s + i)
+  simp only [List.getD_eq_getElem?_getD] at hl
+  rw [hl]
+  by_cases h64 : s + i < 64
+  · exact getLsbD_masked v c hc (s + i) h64
+  · have : ¬ (s + i < c) := by omega
+    simp [this, BitVec.getLsbD_of_ge _ _ (by omega : 64 ≤ s + i)]
+
+theorem writeBits_canon (bs : List Bool) (v : BitVec 64) (c : Nat) (hc : c ≤ 64) :
+    (canonWriter bs).writeBits v c = canonWriter (bs ++ lowBits v c) := by
+  by_cases h0 : c = 0
+  · subst h0; simp [BitWriter.writeBits, lowBits]
+  have hcond : ¬ (c = 0 ∨ c > 64) := by omega
+  have hk : 64 * (bs.length / 64) ≤ bs.length := Nat.mul_div_le _ _
+  have hmod := Nat.div_add_mod bs.length 64
+  have hdl : (bs.drop (64 * (bs.length / 64))).length = bs.length % 64 := by
+    rw [List.length_drop]; omega
+  have hdrop : (bs ++ lowBits v c).drop (64 * (bs.length / 64)) = bs.drop (64 * (bs.length / 64)) ++ lowBits v c :=
+    List.drop_append_of_le_length hk
+  have hcur := packWord_append_low (bs.drop (64 * (bs.length / 64))) v c hc
+  rw [hdl] at hcur
+  simp only [BitWriter.writeBits, hcond, if_false]
+  by_cases hfit : c ≤ 64 - (canonWriter bs).pos
+  · have hfit' : c ≤ 64 - bs.length % 64 := hfit
+    simp only [hfit, if_true]
+    by_cases hfull : (canonWriter bs).pos + c = 64
+    · have hfull' : bs.length % 64 + c = 64 := hfull
+      simp only [hfull, if_true]
+      have hq : (bs.length + c) / 64 = bs.length / 64 + 1 := by omega
+      have hr : (bs.length + c) % 64 = 0 := by omega
+      simp only [canonWriter, List.length_append, lowBits_length, hq, hr, hcur]
+      have hall : (bs ++ lowBits v c).drop (64 * (bs.length / 64 + 1)) = [] := by
+        apply List.drop_eq_nil_of_le; simp [lowBits_length]; omega
+      have htk : (bs.drop (64 * (bs.length / 64)) ++ lowBits v c).take 64 =
+          bs.drop (64 * (bs.length / 64)) ++ lowBits v c := by
+        apply List.take_of_length_le; simp [hdl, lowBits_length]; omega
+      rw [packN_succ, packN_append _ _ _ hk, hdrop, htk, hall]; rfl
+    · have hfull' : ¬ (bs.length % 64 + c = 64) := hfull
+      simp only [hfull, if_false]
+      have hq : (bs.length + c) / 64 = bs.length / 64 := by omega
+      have hr : (bs.length + c) % 64 = bs.length % 64 + c := by omega
+      simp only [canonWriter, List.length_append, lowBits_length, hq, hr, hcur]
+      rw [packN_append _ _ _ hk, hdrop]
+  · have hfit' : ¬ (c ≤ 64 - bs.length % 64) := hfit
+    simp only [hfit, if_false]
+    have hq : (bs.length + c) / 64 = bs.length / 64 + 1 := by omega
+    have hr : (bs.length + c) % 64 = c - (64 - bs.length % 64) := by omega
+    simp only [canonWriter, List.length_append, lowBits_length, hq, hr, hcur]
+    have htk : (bs.drop (64 * (bs.length / 64)) ++ lowBits v c).take 64 =
+        bs.drop (64 * (bs.length / 64)) ++ (lowBits v c).take (64 - bs.length % 64) := by
+      rw [List.take_append, hdl, List.take_of_length_le (by omega)]
+    have hw : packWord (bs.drop (64 * (bs.length / 64)) ++ (lowBits v c).take (64 - bs.length % 64)) =
+        packWord (bs.drop (64 * (bs.length / 64)) ++ lowBits v c) := by
+      apply BitVec.eq_of_getLsbD_eq
+      intro i hi
+      rw [getLsbD_packWord, getLsbD_packWord]
+      congr 1
+      simp only [List.getD_eq_getElem?_getD]
+      by_cases h : i < (bs.drop (64 * (bs.length / 64))).length
+      · rw [List.getElem?_append_left h, List.getElem?_append_left h]
+      · rw [List.getElem?_append_right (by omega), List.getElem?_append_right (by omega), List.getElem?_take]
+        have : i - (bs.drop (64 * (bs.length / 64))).length < 64 - bs.length % 64 := by omega
+        rw [if_pos this]
+    have hd2 : (bs ++ lowBits v c).drop (64 * (bs.length / 64 + 1)) = (lowBits v c).drop (64 - bs.length % 64) := by
+      have : 64 * (bs.length / 64 + 1) = bs.length + (64 - bs.length % 64) := by omega
+      rw [this, List.drop_append, List.drop_eq_nil_of_le (by omega), List.nil_append]
+      congr 1; omega
+    rw [packN_succ, packN_append _ _ _ hk, hdrop, htk, hw, hd2, packWord_drop_low v c _ hc]
+
+/-! ### arbitrary `BitWriter` call sequences -/
+
+/-- One call on a `BitWriter`. -/
+inductive BwOp where
+  | bit (b : Bool)
+  | bits (v : BitVec 64) (count : Nat)
+  | zeros (count : Nat)
+
+/-- The bits a call appends. -/
+def BwOp.denote : BwOp → List Bool
+  | .bit b => [b]
+  | .bits v c => lowBits v c
+  | .zeros n => List.replicate n false
+
+def BwOp.apply (w : BitWriter) : BwOp → BitWriter
+  | .bit b => w.writeBit b
+  | .bits v c => w.writeBits v c
+  | .zeros n => w.writeZeros n
+
+/-- `write_bits` is called within its documented domain. -/
+def BwOp.ok : BwOp → Prop
+  | .bits _ c => c ≤ 64
+  | _ => True
+
+theorem apply_canon (bs : List Bool) (op : BwOp) (h : op.ok) :
+    op.apply (canonWriter bs) = canonWriter (bs ++ op.denote) := by
+  cases op with
+  | bit b => exact writeBit_canon bs b
+  | bits v c => exact writeBits_canon bs v c h
+  | zeros n => exact writeZeros_canon bs n
+
+theorem foldl_apply_canon (ops : List BwOp) (h : ∀ op ∈ ops, op.ok) (bs : List Bool) :
+    ops.foldl BwOp.apply (canonWriter bs) = canonWriter (bs ++ ops.flatMap BwOp.denote) := by
+  induction ops generalizing bs with
+  | nil => simp
+  | cons op ops ih =>
+    rw [List.foldl_cons, apply_canon bs op (h op (by simp)), ih (fun o ho => h o (by simp [ho]))]
+    simp
+
+theorem canon_nil : BitWriter.empty = canonWriter [] := by
+  simp [canonWriter, BitWriter.empty, packN, packWord, packBits]
+
+theorem len_canon (bs : List Bool) : (canonWriter bs).len = bs.length := by
+  rw [← writeAll_empty]; exact len_writeAll bs
+
 /-! ### simple-cursor scalar loop -/
 
 theorem simpleLoop_agrees (cs : List (BitVec 8)) (s : SSt) (ib bp : BitWriter) :
